@@ -24,6 +24,26 @@ type generatedMethod struct {
 	Jen        jen.Code
 
 	IndexID method.IndexID
+
+	// Available holds the context that was available when a generated method
+	// was created, it is reused when the method has to be rebuilt.
+	Available map[string]*xtype.Type
+	// Callers are the methods that call this method. They have to be rebuilt
+	// when the signature of this method changes.
+	Callers map[method.IndexID]struct{}
+}
+
+func (m *generatedMethod) addCaller(id method.IndexID) {
+	if m.Callers == nil {
+		m.Callers = map[method.IndexID]struct{}{}
+	}
+	m.Callers[id] = struct{}{}
+}
+
+func (g *generator) dirtyCallers(m *generatedMethod) {
+	for id := range m.Callers {
+		g.lookup.ByID(id).Dirty = true
+	}
 }
 
 type generator struct {
@@ -57,7 +77,11 @@ func (g *generator) buildDirtyMethods() error {
 			continue
 		}
 		genMethod.Dirty = false
-		err := g.buildMethod(genMethod, genMethod.Context)
+		available := genMethod.Context
+		if genMethod.Available != nil {
+			available = genMethod.Available
+		}
+		err := g.buildMethod(genMethod, available)
 		if err != nil {
 			err = err.Lift(&builder.Path{
 				SourceID:   "source",
@@ -337,6 +361,7 @@ func (g *generator) ReturnError(ctx *builder.MethodContext, errPath builder.Erro
 			if !check.ReturnError {
 				check.ReturnError = true
 				check.Dirty = true
+				g.dirtyCallers(check)
 			}
 		}
 	}
@@ -372,6 +397,7 @@ func (g *generator) requireContext(ctx *builder.MethodContext, need *xtype.Type)
 			Type: need,
 		})
 		check.Dirty = true
+		g.dirtyCallers(check)
 	}
 	return true
 }
@@ -482,6 +508,7 @@ func (g generator) callExisting(
 		return nil, nil, builder.NewError(err.Error())
 	}
 	if genMethod, err := g.lookup.Get(signature, ctx.AvailableContext); genMethod != nil {
+		genMethod.addCaller(ctx.IndexID)
 		return g.CallMethod(ctx, genMethod.Definition, sourceID, source, target, errPath)
 	} else if err != nil {
 		return nil, nil, builder.NewError(err.Error())
@@ -539,6 +566,7 @@ func (g *generator) createSubMethod(ctx *builder.MethodContext, sourceID *xtype.
 	path := append([]method.IndexID{ctx.IndexID}, orig.OriginPath...)
 	genMethod := &generatedMethod{
 		OriginPath: path,
+		Available:  ctx.AvailableContext,
 		Method: &config.Method{
 			Common:      g.conf.Common,
 			Fields:      map[string]*config.FieldMapping{},
